@@ -48,51 +48,51 @@ const histRule = "each run: a tape-generated history of header submissions from 
 func init() {
 	hprop("C01", histRule+"after every event tip/work/height and the hash and header at every height are compared with the reference tree; non-trivial = the run contains at least one reorganisation of the reported best chain; distinct = distinct hash of the canonical event log",
 		25, 900, nil, nil, "exploration",
-		hw.Opts{Groups: groups("c01"), MinSteps: 4, MaxSteps: 60, SmallPrune: true,
+		hw.Opts{Groups: groups("c01"), MinSteps: 4, MaxSteps: 60, SmallPrune: true, LargeEvery: 60,
 			WMint: 60, WDeliver: 20, WClean: 6, WSave: 3, WReload: 4})
 
 	hprop("C07", histRule+"0-3 subscribers register at tape-chosen times and are drained after every submission; each applies the stream to its own chain; the delivered sequence must equal exactly the headers of the new best chain above the fork point, lowest first; non-trivial = at least one reorganisation while a subscriber is registered",
 		25, 900, []string{"subscriber-registered", "stream-multi-header-announcement"}, nil, "exploration",
-		hw.Opts{Groups: groups("c07"), MinSteps: 4, MaxSteps: 60, SmallPrune: true,
+		hw.Opts{Groups: groups("c07"), MinSteps: 4, MaxSteps: 60, SmallPrune: true, LargeEvery: 60,
 			WMint: 60, WDeliver: 20, WClean: 4, WSave: 1, WReload: 2, WSubscribe: 8})
 
 	hprop("C08", histRule+"plus submissions chosen adversarially relative to the current state (orphan, duplicate of any known header, fork exactly at / one beyond MaxBranchDepth, extension of a deep side tip, fork of a side branch) for MaxBranchDepth in {0,1,2,3,4,6,8,144}; every verdict is compared with the reference verdict and after every non-accepting answer all observables (and, sampled, the bytes of a subsequent Save) must be identical; non-trivial = at least one reorganisation or adversarial refusal",
 		25, 900, []string{"adv-orphan", "adv-duplicate-on-side-branch", "adv-duplicate-best-interior", "adv-fork-exactly-at-max-depth", "adv-fork-one-beyond-max-depth", "adv-extend-deep-side-tip", "adv-fork-of-side-branch", "save-compared-after-refusal", "refusal:unknown-parent", "refusal:beyond-depth"}, nil, "exploration",
-		hw.Opts{Groups: groups("c08"), MinSteps: 4, MaxSteps: 50, SmallPrune: true,
+		hw.Opts{Groups: groups("c08"), MinSteps: 4, MaxSteps: 50, SmallPrune: true, LargeEvery: 60,
 			WMint: 40, WDeliver: 15, WClean: 4, WSave: 2, WReload: 3, WAdversarial: 30})
 
 	hprop("C09", histRule+"after every event HashHeight, CheckHeader, GetHeader and PreviousHash of every header ever minted, and tape-chosen GetHeaders ranges, are compared with the reference tree (height, best-chain flag = ancestor-or-equal of the reported tip, predecessor); non-trivial = at least one reorganisation",
 		25, 900, nil, nil, "exploration",
-		hw.Opts{Groups: groups("c09"), MinSteps: 4, MaxSteps: 60, SmallPrune: true,
+		hw.Opts{Groups: groups("c09"), MinSteps: 4, MaxSteps: 60, SmallPrune: true, LargeEvery: 60,
 			WMint: 60, WDeliver: 20, WClean: 8, WSave: 2, WReload: 5, WQuery: 8})
 
 	hprop("C10", histRule+"Clean is inserted at tape-chosen positions, 1-3 times back to back; a canonical rendering of every observable before and after must be identical, and the run continues under the tip/ancestry oracle so that side branches must still extend and overtake; non-trivial = every run with at least one Clean",
 		25, 900, nil, nil, "exploration",
-		hw.Opts{Groups: groups("c10", "c01"), MinSteps: 4, MaxSteps: 60, SmallPrune: true,
+		hw.Opts{Groups: groups("c10", "c01"), MinSteps: 4, MaxSteps: 60, SmallPrune: true, LargeEvery: 60,
 			WMint: 60, WDeliver: 20, WClean: 14, WSave: 2, WReload: 3})
 
 	hprop("C11", histRule+"at tape-chosen points the repository is saved and a new one loaded from the same disk (up to several generations); tip, best chain by height and height/best-chain flag of every header within the retained depth must be equal; then original and loaded repository (twin run) receive the same continuation and must give the same verdicts and observables; non-trivial = every run with at least one reload",
 		25, 900, []string{"twin-started", "twin-submission", "reload-with-side-branches"}, nil, "exploration",
-		hw.Opts{Groups: groups("c11", "c01"), MinSteps: 4, MaxSteps: 60, SmallPrune: true, Twin: true,
+		hw.Opts{Groups: groups("c11", "c01"), MinSteps: 4, MaxSteps: 60, SmallPrune: true, LargeEvery: 60, Twin: true,
 			WMint: 60, WDeliver: 20, WClean: 5, WSave: 3, WReload: 12})
 
 	hprop("C12", histRule+"for each sampled Clean and Save EVERY prefix of the Write/Remove calls it issued (including empty and full) is turned into a disk image that a fresh repository loads; the load must succeed without panic and report a linked chain of accepted headers with work >= the tip at the last completed Save, and the loaded repository must accept an extension; non-trivial = every run with at least one crash enumeration; crash points are counted under faults_fired",
 		25, 900, []string{"crash-op-with>=4-mutations", "crash-with-side-branches"}, []string{"crash-point"}, "fault_enumeration",
-		hw.Opts{Groups: groups("c12"), MinSteps: 4, MaxSteps: 40, SmallPrune: true,
+		hw.Opts{Groups: groups("c12"), MinSteps: 4, MaxSteps: 40, SmallPrune: true, LargeEvery: 60,
 			WMint: 60, WDeliver: 20, WClean: 3, WSave: 2, WReload: 3, WCrash: 10})
 
 	hprop("C17", histRule+"headers are marked invalid (best chain at any depth, side branch, first of branch, not yet seen, already marked, unknown hash) and unmarked at tape-chosen points, with Save/restart in between; after every event the reported tip must be the heaviest chain not built on a marked header, marked headers and descendants must not be flagged best-chain, resubmission must be refused as marked, and after unmarking the header must be accepted again; non-trivial = every run with at least one marking",
 		25, 900, []string{"mark:best-chain", "mark:side-branch", "mark:first-of-branch", "mark:not-yet-seen", "mark:already-marked", "mark:unknown-hash", "mark-forced-fallback", "unmark", "accepted-again-after-unmark", "refusal:marked-invalid"}, nil, "exploration",
-		hw.Opts{Groups: groups("c17", "c08"), MinSteps: 4, MaxSteps: 50, SmallPrune: true, ConfigInvalid: true,
+		hw.Opts{Groups: groups("c17", "c08"), MinSteps: 4, MaxSteps: 50, SmallPrune: true, LargeEvery: 60, ConfigInvalid: true,
 			WMint: 60, WDeliver: 20, WClean: 3, WSave: 2, WReload: 5, WMark: 8, WUnmark: 5})
 
 	hprop("C18", histRule+"every header carries a real merkle root over 1-9 generated txids; at tape-chosen points a standard merkle proof (with header, or block hash only) is built for a transaction of an accepted block on the best chain, a side branch or in pruned history and must verify with the reference height and best-chain flag; one tape-chosen single-element corruption (txid, path element, index, header merkle root, unknown block hash, header not in the tree, truncated/extended path) must fail; non-trivial = every run with at least one proof",
 		25, 900, []string{"proof-on-side-branch", "proof-in-pruned-history", "proof-odd-width", "proof-by-block-hash-only", "corruption:txid", "corruption:path-element", "corruption:index", "corruption:header-merkle-root", "corruption:unknown-block-hash", "corruption:header-not-in-tree", "corruption:path-truncated", "corruption:path-extended"}, nil, "exploration",
-		hw.Opts{Groups: groups("c18"), MinSteps: 4, MaxSteps: 50, SmallPrune: true, Txids: true,
+		hw.Opts{Groups: groups("c18"), MinSteps: 4, MaxSteps: 50, SmallPrune: true, LargeEvery: 60, Txids: true,
 			WMint: 60, WDeliver: 20, WClean: 5, WSave: 2, WReload: 4, WProof: 25})
 
 	hprop("C19", histRule+"at tape-chosen points GetLocatorHashes(max) for max in {1,2,3,10,50} is checked for membership (best-chain header or first header of a side branch), newest-first order starting at the tip's parent, no duplicates and the maximum; then for every root-to-leaf path of the reference tree (a conformant peer on that chain) the protocol reply to the locator is computed and its first header submitted: it must connect; non-trivial = every run with at least one locator",
 		25, 900, []string{"locator-at-height<=1", "locator-on-pruned-chain", "locator-with>=2-side-branches", "conformant-peer-reply", "peer-on-sibling-of-tip"}, nil, "exploration",
-		hw.Opts{Groups: groups("c19"), MinSteps: 2, MaxSteps: 50, SmallPrune: true,
+		hw.Opts{Groups: groups("c19"), MinSteps: 2, MaxSteps: 50, SmallPrune: true, LargeEvery: 60,
 			WMint: 60, WDeliver: 20, WClean: 5, WSave: 2, WReload: 4, WLocator: 20})
 }
